@@ -330,6 +330,103 @@ def c08_13(ctx):
     return out
 
 
+def c08_14(ctx):
+    """the constructors keep the version bytes they are given: for every network and every SLIP-132 version of the right kind the
+    object's priv_version / pub_version is the argument, and the network default is used only for None (cell evaluation of both
+    __init__ methods over 4 networks x all SLIP-132 versions)"""
+    from sa.cells import Evaluator, Obj, Raised, Undecided
+    out = []
+    nets = ("mainnet", "testnet", "signet", "regtest")
+    for spec, kind, attr, kw in (("hd:HDPrivateKey.__init__", "prv", "priv_version", "priv_version"), ("hd:HDPublicKey.__init__", "pub", "pub_version", "pub_version")):
+        mod, fn = rl.get(ctx, spec)
+        clsname = spec.split(":")[1].split(".")[0]
+        bad = None
+        n = 0
+        for net in nets:
+            fam = "mainnet" if net == "mainnet" else "testnet"
+            versions = [bytes.fromhex(h) for h in SLIP132["%s_%s" % (fam, kind)]]
+            for v in versions + [None]:
+                me = Obj("hd", clsname)
+                point = Obj("pecc", "S256Point", {})
+                args = {"chain_code": bytes(32), "depth": 0, "parent_fingerprint": bytes(4), "child_number": 0, "network": net, kw: v}
+                if kind == "prv":
+                    args["private_key"] = Obj("pecc", "PrivateKey", {"point": point})
+                else:
+                    args["point"] = point
+                n += 1
+                try:
+                    Evaluator(ctx.repo).call(spec, [], self_obj=me, kwargs=args)
+                except Undecided as u:
+                    bad = ("err", "constructor not evaluable: %s" % u)
+                    break
+                except Raised as x:
+                    bad = ("bad", "raises %s for network %s, %s=%s" % (x.name, net, kw, v.hex() if v else None))
+                    break
+                got = me.attrs.get(attr)
+                if v is not None and got != v:
+                    bad = ("bad", "network %s, %s=%s: the object carries %s" % (net, kw, v.hex(), got.hex() if isinstance(got, bytes) else got))
+                    break
+                if v is None and not isinstance(got, bytes):
+                    bad = ("bad", "network %s without %s: no default version is set" % (net, kw))
+                    break
+            if bad:
+                break
+        ctx.count("cells", n)
+        if bad and bad[0] == "err":
+            out.append(ctx.err(spec, bad[1], fn, mod))
+        elif bad:
+            out.append(ctx.bad(spec, "%s: the SLIP-132 prefix given to the constructor is lost, so serialise / parse and children change prefix (zprv comes back as xprv)" % bad[1],
+                               fn, mod, key="version-kept:" + kind))
+        else:
+            out.append(ctx.ok(spec, "every SLIP-132 %s version is kept for every network (%d cells); None gets the network default" % (kind, n), fn, mod, key="version-kept:" + kind))
+    return out
+
+
+def c08_15(ctx):
+    """NOTATION: wherever a path component is tested for the hardened marker, both notations (`'` and `h`) are covered: either the
+    text was normalised first (`replace("h", "'")` / `replace("'", "h")` among its origins) or the test names both markers"""
+    out = []
+    n_sites = 0
+    for mn in ("hd", "blinding", "psbt_helper", "descriptor"):
+        if mn not in ctx.repo.modules:
+            continue
+        mod = ctx.repo.module(mn)
+        for qn, fn in mod.functions.items():
+            cfg = cfg_of(fn)
+            for n in cfg.nodes:
+                if n.ast is None or isinstance(n.ast, (ast.FunctionDef, ast.ClassDef)) or n.kind == "join":
+                    continue
+                root = n.ast.iter if n.kind == "for" else n.ast
+                for c in ast.walk(root):
+                    if not (isinstance(c, ast.Call) and isinstance(c.func, ast.Attribute) and c.func.attr in ("endswith", "rstrip") and c.args):
+                        continue
+                    a = c.args[0]
+                    marks = None
+                    if isinstance(a, ast.Constant) and isinstance(a.value, str):
+                        marks = set(a.value) if c.func.attr == "rstrip" else {a.value}
+                    elif isinstance(a, ast.Tuple) and all(isinstance(e, ast.Constant) and isinstance(e.value, str) for e in a.elts):
+                        marks = {e.value for e in a.elts}
+                    if not marks or not (marks & {"h", "'", "H"}) or not marks <= {"h", "'", "H"}:
+                        continue
+                    if c.func.attr == "rstrip":
+                        continue
+                    n_sites += 1
+                    oo = origins(fn, n.id, c.func.value)
+                    norm = "call:replace" in oo
+                    both = "'" in marks and ("h" in marks or "H" in marks)
+                    spec = "%s:%s" % (mn, qn)
+                    if norm or both:
+                        out.append(ctx.ok(spec, "`%s`: %s" % (ast.unparse(c), "the text was normalised to one notation first" if norm else "both notations are tested"), c, mod,
+                                          key="marker:%s" % qn))
+                    else:
+                        out.append(ctx.bad(spec, "`%s` recognises only the %s notation of a hardened step and the text was not normalised: the same path written with %s is "
+                                                 "read as an unhardened index (or rejected)" % (ast.unparse(c), "/".join(sorted(marks)), "`'`" if "'" not in marks else "`h`"), c, mod,
+                                           key="marker:%s" % qn))
+    if not out:
+        out.append(ctx.ok("hd+blinding:*", "no suffix test on a hardened marker found", key="marker"))
+    return out
+
+
 def c08_8(ctx):
     spec = "blinding:blind_xpub"
     mod, fn = rl.get(ctx, spec)
@@ -431,6 +528,8 @@ def c08_11(ctx):
 
 
 OBLIGATIONS = [
+    ("C08.15", "NOTATION", c08_15),
+    ("C08.14", "CELLS version kept", c08_14),
     ("C08.13", "GUARD default", c08_13),
     ("C08.12", "ORDER normalisation", c08_12),
     ("C08.11", "MEMO", c08_11),
